@@ -371,6 +371,16 @@ def runF (table : List Load) : Nat → Load → Sh α → Sh α × Bool
   | 0, _, sh => (sh, false)
   | n + 1, L, sh => runMain (tableEnv (runF table n) table) L sh
 
+/-- a history of load attempts on the same classes (same metamodel or metamodels sharing user
+classes), one after the other: each entry = the loads user code may start, the nesting depth, the
+attempt.  Attempts may fail or succeed; the state each leaves is the state the next starts in. -/
+def runHist (hist : List (List Load × Nat × Load)) (sh : Sh α) : Sh α :=
+  hist.foldl (fun s x => (runF x.1 x.2.1 x.2.2 s).1) sh
+
+/-- a later attempt on the classes as an earlier history left them: its own event lists -/
+def runNext (table : List Load) (n : Nat) (L : Load) (sh : Sh α) : Sh α × Bool :=
+  runF table n L { sh with log := [], own := [] }
+
 end
 
 /-! ## what the calls of user code of one attempt should be (specification)
